@@ -8,6 +8,7 @@ import (
 	"fmt"
 	"os"
 	"path/filepath"
+	"regexp"
 	"regexp/syntax"
 	"sort"
 	"strconv"
@@ -418,6 +419,72 @@ func reWitness(r *Re, limit int) (w string, ok bool, states int, err error) {
 	return "", false, len(nodes), nil
 }
 
+// reWitnesses returns members of L(r) for replay when the shortest member is
+// not an input the real code accepts: one shortest string per accepting state
+// of the derivative automaton, plus, for every such state, the variants
+// obtained by taking a different last transition into it.
+func reWitnesses(r *Re, max int, limit int) []string {
+	dc := &derivCache{m: map[string]*Re{}}
+	classes := byteClasses(r)
+	reps := make([]byte, len(classes))
+	for i, c := range classes {
+		reps[i] = c[0]
+		for _, b := range c {
+			if b >= 0x21 && b < 0x7f {
+				reps[i] = b
+				break
+			}
+		}
+	}
+	type node struct {
+		r    *Re
+		prev int
+		by   byte
+	}
+	nodes := []node{{r, -1, 0}}
+	index := map[string]int{r.key: 0}
+	str := func(i int) string {
+		var bs []byte
+		for k := i; nodes[k].prev >= 0; k = nodes[k].prev {
+			bs = append(bs, nodes[k].by)
+		}
+		for a, b := 0, len(bs)-1; a < b; a, b = a+1, b-1 {
+			bs[a], bs[b] = bs[b], bs[a]
+		}
+		return string(bs)
+	}
+	seen := map[string]bool{}
+	var out []string
+	add := func(s string) {
+		if !seen[s] && len(out) < max {
+			seen[s] = true
+			out = append(out, s)
+		}
+	}
+	for i := 0; i < len(nodes) && len(nodes) < limit; i++ {
+		n := nodes[i]
+		for _, b := range reps {
+			d := dc.deriv(n.r, b)
+			if d.op == "none" {
+				continue
+			}
+			if j, ok := index[d.key]; ok {
+				if d.nullable() {
+					add(str(i) + string([]byte{b})) // another way into an accepting state
+				}
+				_ = j
+				continue
+			}
+			index[d.key] = len(nodes)
+			nodes = append(nodes, node{d, i, b})
+			if d.nullable() {
+				add(str(len(nodes) - 1))
+			}
+		}
+	}
+	return out
+}
+
 func reMatch(r *Re, s string) bool {
 	dc := &derivCache{m: map[string]*Re{}}
 	for i := 0; i < len(s); i++ {
@@ -480,6 +547,10 @@ func (r *Re) SMT() string {
 // ---------------------------------------------------------------------------
 // Parser for the .lang syntax
 
+var seplistName = regexp.MustCompile(`^SEPLIST_(.+)_((?:[0-9a-f]{2})+)$`)
+var noneOfName = regexp.MustCompile(`^NONE_OF_((?:[0-9a-f]{2})+)_STAR$`)
+var fixName = regexp.MustCompile(`^(PFX|SFX)_((?:[0-9a-f]{2})+)$`)
+
 type langExample struct {
 	lang   string
 	member bool
@@ -487,6 +558,7 @@ type langExample struct {
 }
 
 type LangEnv struct {
+	Resolve  func(name string) (*Re, string, bool) // code-derived languages resolved on demand (RE_<var>)
 	examples []langExample
 	defs     map[string]*Re
 	src      map[string]string // name -> source text ("(code) ..." for code-derived)
@@ -626,6 +698,70 @@ func (le *LangEnv) Get(name string) *Re {
 			le.Fold(strings.TrimPrefix(name, "FOLD_"))
 			return le.defs[name]
 		}
+		if m := seplistName.FindStringSubmatch(name); m != nil {
+			var sep []byte
+			for i := 0; i+1 < len(m[2]); i += 2 {
+				var b int
+				fmt.Sscanf(m[2][i:i+2], "%02x", &b)
+				sep = append(sep, byte(b))
+			}
+			inner := le.Get(m[1])
+			le.Define(name, reCat(inner, reStar(reCat(reLit(string(sep)), inner))), fmt.Sprintf("(derived) %s ( %q %s )*", m[1], sep, m[1]))
+			return le.defs[name]
+		}
+		if m := fixName.FindStringSubmatch(name); m != nil {
+			var lit []byte
+			for i := 0; i+1 < len(m[2]); i += 2 {
+				var b int
+				fmt.Sscanf(m[2][i:i+2], "%02x", &b)
+				lit = append(lit, byte(b))
+			}
+			if m[1] == "PFX" {
+				le.Define(name, reCat(reLit(string(lit)), reStar(reAny())), fmt.Sprintf("(code) strings with prefix %q", lit))
+			} else {
+				le.Define(name, reCat(reStar(reAny()), reLit(string(lit))), fmt.Sprintf("(code) strings with suffix %q", lit))
+			}
+			return le.defs[name]
+		}
+		if le.Resolve != nil {
+			if r, src, ok := le.Resolve(name); ok {
+				le.Define(name, r, src)
+				return r
+			}
+		}
+		if m := noneOfName.FindStringSubmatch(name); m != nil {
+			var set byteSet
+			for i := 0; i+1 < len(m[1]); i += 2 {
+				var b int
+				fmt.Sscanf(m[1][i:i+2], "%02x", &b)
+				set.add(byte(b))
+			}
+			le.Define(name, reStar(reSet(set.not())), "(code) strings without any of the bytes "+m[1])
+			return le.defs[name]
+		}
+		if strings.HasPrefix(name, "GO_URL_SCHEME_") {
+			lit := strings.TrimPrefix(name, "GO_URL_SCHEME_")
+			var parts []*Re
+			for i := 0; i < len(lit); i++ {
+				c := lit[i]
+				var set byteSet
+				set.add(c)
+				if c >= 'a' && c <= 'z' {
+					set.add(c - 'a' + 'A')
+				}
+				parts = append(parts, reSet(set))
+			}
+			le.Define(name, reCat(append(parts, reByte(':'), reStar(reAny()))...), fmt.Sprintf("(code) URLs whose scheme equals %q ignoring ASCII case", lit))
+			return le.defs[name]
+		}
+		if name == "GO_URL_NO_CTL" {
+			le.pending[name] = `[^\x00-\x1f\x7f]*`
+			return le.Get(name)
+		}
+		if name == "GO_URL_HAS_SCHEME" {
+			le.pending[name] = `[A-Za-z][A-Za-z0-9+.\-]*:.*`
+			return le.Get(name)
+		}
 		if name == "GO_SPACE_STAR" {
 			le.GoSpaceStar()
 			return le.defs[name]
@@ -637,6 +773,12 @@ func (le *LangEnv) Get(name string) *Re {
 		panic(unsupported("unknown language %s", name))
 	}
 	le.defs[name] = nil
+	done := false
+	defer func() {
+		if !done {
+			delete(le.defs, name) // leave no half-defined marker behind when a referenced language is missing
+		}
+	}()
 	p := &reParser{s: src, le: le}
 	r := p.parseExpr()
 	p.skipWS()
@@ -645,6 +787,7 @@ func (le *LangEnv) Get(name string) *Re {
 	}
 	le.defs[name] = r
 	le.src[name] = src
+	done = true
 	return r
 }
 
@@ -1150,4 +1293,46 @@ func runeClass(ranges []rune) *Re {
 	}
 	alts = append(alts, reSet(ascii))
 	return reAlt(alts...)
+}
+
+// lowerImage: the image of an ASCII-only language under bytewise lower-casing.
+// ok=false if the expression mentions non-ASCII bytes or uses complement /
+// intersection (the image is then not computed structurally).
+func lowerImage(r *Re) (*Re, bool) {
+	switch r.op {
+	case "none", "eps":
+		return r, true
+	case "set":
+		var s byteSet
+		for b := 0; b < 256; b++ {
+			if r.set.has(byte(b)) {
+				if b >= 0x80 {
+					return nil, false
+				}
+				c := byte(b)
+				if c >= 'A' && c <= 'Z' {
+					c += 'a' - 'A'
+				}
+				s.add(c)
+			}
+		}
+		return reSet(s), true
+	case "cat", "alt", "star":
+		subs := make([]*Re, len(r.subs))
+		for i, x := range r.subs {
+			y, ok := lowerImage(x)
+			if !ok {
+				return nil, false
+			}
+			subs[i] = y
+		}
+		switch r.op {
+		case "cat":
+			return reCat(subs...), true
+		case "alt":
+			return reAlt(subs...), true
+		}
+		return reStar(subs[0]), true
+	}
+	return nil, false
 }
